@@ -84,6 +84,7 @@ fn replay_each_ws(a: &mut Args, stale: bool, mut after: impl FnMut(&Qbvh<u32>, &
                 "F" => { let m = a.f(); let c = &cur;
                          let _ = q.refit(m, &mut ws, |d: &u32| c.get(*d as usize).copied().unwrap_or_else(Aabb::new_invalid)); }
                 "B" => { let m = a.f(); q.rebalance(m, &mut ws); }
+                "S" | "N" => { let _ = bld::build_with_splitter(&op, a, &mut q, &mut cur); }
                 "C" => { let n = a.u(); let mut items = Vec::new();
                          for _ in 0..n { let id = a.u(); let b = rd_box(a); items.push((id as u32, b)); }
                          let dil = a.f();
